@@ -290,3 +290,4 @@ MANIFEST = {
             "through the numpy dft_upsample finding), exact mass conservation of scipy's Gaussian filter, interp1d numerics.",
     "technique": "kinded-axis abstract interpretation + polynomial normal forms (weights, knot ends) + sibling-arm agreement",
 }
+MANIFEST["text"] += " Borrowed instances (R4): C13's rules on the NumPy registration helper behind align_translation (cross_correlation_shift, dft_upsample)."
